@@ -1,0 +1,33 @@
+//go:build verif
+
+package tokenizer
+
+import "github.com/ajitpratap0/GoSQLX/pkg/models"
+
+// VerifLoc is toSQLPosition for a byte offset of the input of the last Tokenize call,
+// for the verification harness only (offset -> reported line/column).
+func (t *Tokenizer) VerifLoc(idx int) models.Location {
+	return t.toSQLPosition(Position{Index: idx})
+}
+
+// VerifGetLocation is getLocation (what the exported Position.Location uses).
+func (t *Tokenizer) VerifGetLocation(idx int) models.Location {
+	return t.getLocation(idx)
+}
+
+// VerifLineStarts returns a copy of the line table built by the last Tokenize call.
+func (t *Tokenizer) VerifLineStarts() []int {
+	out := make([]int, len(t.lineStarts))
+	copy(out, t.lineStarts)
+	return out
+}
+
+// VerifInputLen is the length of the input the tokenizer currently holds.
+func (t *Tokenizer) VerifInputLen() int {
+	return len(t.input)
+}
+
+// VerifPos returns the scanning cursor (byte index and the incrementally maintained line/column).
+func (t *Tokenizer) VerifPos() (index, line, column int) {
+	return t.pos.Index, t.pos.Line, t.pos.Column
+}
